@@ -4,7 +4,7 @@
    ExcelCompiler._evaluate; tied to the source by the real-thread schedule
    enumeration and the static inventory of harness/props/c07.py). *)
 From Coq Require Import ZArith QArith List.
-From PV Require Import Lib.Py Model.Iter Model.Threads Proofs.C07 Proofs.C07Ser.
+From PV Require Import Lib.Py Model.Iter Model.Threads Proofs.C07 Proofs.C07Ser Proofs.C07Warm.
 Import ListNotations.
 
 (* threads with their own namespace working on different compilers: for EVERY
@@ -130,3 +130,44 @@ Theorem C07_shared_namespace_interferes :
       <> view cf t (run cf (only t sched) (fresh_process kinds comps)).
 Proof. exact shared_namespace_interferes. Qed.
 Print Assumptions C07_shared_namespace_interferes.
+
+(* the same for the array-context stack: with one stack for both threads, a thread
+   that is inside a formula sees a stack that is deeper than in its solo run (the
+   top entry is the other thread's) *)
+Theorem C07_shared_context_stack_interferes :
+  exists cf kinds comps sched t,
+    (forall a b, a <> b -> c_comp cf a <> c_comp cf b) /\
+    c_ns cf 0%nat = c_ns cf 1%nat /\
+    ctx_addresses (the_ctx (g_ns (run cf sched (fresh_process kinds comps)) (c_ns cf t)))
+    <> ctx_addresses (the_ctx (g_ns (run cf (only t sched) (fresh_process kinds comps)) (c_ns cf t))).
+Proof. exact shared_context_stack_interferes. Qed.
+Print Assumptions C07_shared_context_stack_interferes.
+
+(* fresh vs warmed-up threads (proofs: Proofs/C07Warm.v): an evaluate(address,
+   iterations, tolerance) that starts on a namespace holding WHATEVER earlier
+   operations of the thread left in the tracker (todo, computed, iteration number,
+   iterations, tolerance - present or not) and on a namespace that does not exist
+   yet, with the same array-context stack (balanced: [False], or not yet created),
+   gives the same machine (outcome, value, pass count, entries) and the same
+   compiler contents after every schedule *)
+Theorem C07_warm_equals_fresh : forall cf t sched G G' tg it tolv,
+  (forall u, In u sched -> u <> t -> c_ns cf u <> c_ns cf t /\ c_comp cf u <> c_comp cf t) ->
+  g_m G t = start (KEval tg it tolv) -> g_m G' t = start (KEval tg it tolv) ->
+  g_k G (c_comp cf t) = g_k G' (c_comp cf t) ->
+  the_ctx (g_ns G (c_ns cf t)) = the_ctx (g_ns G' (c_ns cf t)) ->
+  g_m (run cf sched G) t = g_m (run cf sched G') t /\
+  g_k (run cf sched G) (c_comp cf t) = g_k (run cf sched G') (c_comp cf t).
+Proof. exact warm_equals_fresh. Qed.
+Print Assumptions C07_warm_equals_fresh.
+
+(* every step reads the thread's namespace only through what the `ns` properties
+   return: a namespace that does not exist yet and the one they create are
+   indistinguishable for every operation (evaluate, set_value, cell construction) *)
+Theorem C07_namespace_lazy : forall w m n n' k,
+  the_ns n = the_ns n' /\ the_ctx n = the_ctx n' ->
+  fst (fst (tstep w m n k)) = fst (fst (tstep w m n' k)) /\
+  snd (tstep w m n k) = snd (tstep w m n' k) /\
+  (the_ns (snd (fst (tstep w m n k))) = the_ns (snd (fst (tstep w m n' k))) /\
+   the_ctx (snd (fst (tstep w m n k))) = the_ctx (snd (fst (tstep w m n' k)))).
+Proof. exact tstep_lazy. Qed.
+Print Assumptions C07_namespace_lazy.
